@@ -122,7 +122,12 @@ def gen_text(rng, opts, nlines, eols=("\n",), final_newline=True, secrets=True):
     out = []
     for i in range(nlines):
         r = rng.random()
-        if r < 0.08:
+        if r < 0.04:
+            # a line of enclosing punctuation only (closing quote of a multi-line string, braces, terminators)
+            p = rng.choice(['"', '";', "''", "[ ]", "}", "};", "{", '"\'', "];", ",", "' '", '" "', "\\\"", "[", '""'])
+            ln = {"kind": "plain", "lead": rng.choice(["", "  ", "\t"]), "trail": rng.choice(["", " "]), "toks": [[t, "benign"] for t in p.split()],
+                  "seps": [" "] * len(p.split())}
+        elif r < 0.08:
             ln = {"kind": "blank", "lead": "", "trail": rng.choice(["", "", " ", "\t ", "   "]), "toks": [], "seps": []}
         elif r < 0.3 and secrets:
             ln = gen_secret_line(rng, opts, state)
